@@ -33,7 +33,7 @@ import (
 )
 
 type Ev struct {
-	Kind  string `json:"kind"` // msg | peerping | emptyack | pong | tick | failtick
+	Kind  string `json:"kind"` // msg | peerping | emptyack | emptymsg | pong | tick | failtick
 	GapMs int    `json:"gapMs"`
 	Back  int    `json:"back,omitempty"` // pong: 0 = the current ping, 1 = the one before, ...
 }
@@ -226,6 +226,14 @@ func Exec(t *testing.T, sc Scenario, r *evid.Run) *evid.Failure {
 						if !w.Datagram() {
 							m = refcodec.Msg{Code: 226, Token: []byte{0x18, byte(nextMID)}}
 						}
+					case "emptymsg":
+						// stream: an Empty message (code 0.00), which RFC 8323 3.4 tells the receiver to
+						// ignore and some peers send as their keep-alive; datagram: a reset that answers
+						// nothing of ours. Ignored or not, it is a message received from the peer.
+						m = refcodec.Msg{Type: peer.RST, MID: nextMID & 0xffff}
+						if !w.Datagram() {
+							m = refcodec.Msg{}
+						}
 					case "emptyack":
 						m = refcodec.Msg{Type: peer.ACK, MID: nextMID & 0xffff}
 						if !w.Datagram() {
@@ -296,7 +304,7 @@ func Exec(t *testing.T, sc Scenario, r *evid.Run) *evid.Failure {
 				s.tick()
 				s.failNext(false)
 				rec.kind, rec.failed = "tick", true
-			case "msg", "peerping", "emptyack":
+			case "msg", "peerping", "emptyack", "emptymsg":
 				recvKind = e.Kind
 				s.recv()
 				rec.kind = "msg"
@@ -426,7 +434,7 @@ func gen(t *rapid.T) Scenario {
 	n := rapid.IntRange(1, 16).Draw(t, "nev")
 	silent := rapid.IntRange(0, 4).Draw(t, "silent") == 0
 	for i := 0; i < n; i++ {
-		e := Ev{Kind: rapid.SampledFrom([]string{"tick", "tick", "tick", "tick", "tick", "failtick", "msg", "peerping", "emptyack", "pong", "pong"}).Draw(t, "kind"), GapMs: rapid.SampledFrom(gaps).Draw(t, "gap")}
+		e := Ev{Kind: rapid.SampledFrom([]string{"tick", "tick", "tick", "tick", "tick", "failtick", "msg", "peerping", "emptyack", "emptymsg", "pong", "pong"}).Draw(t, "kind"), GapMs: rapid.SampledFrom(gaps).Draw(t, "gap")}
 		if silent {
 			e.Kind = "tick"
 			e.GapMs = rapid.SampledFrom([]int{p / 3, p / 2, p - 1}).Draw(t, "sgap")
